@@ -22,6 +22,7 @@ func init() {
 			"updateStateStorage: CancelPrune(x, NewRoot) dominates PruneTrie(x, OldRoot) on the same x; PruneStateOnRollback: CancelPrune(prev, OldRoot) dominates PruneTrie(curr, NewRoot) where (curr, prev) are " +
 			"results 0 and 1 of getRootHashes, which returns (current-header root, previous-header root). Swapping an identifier or a root prunes a live state. " +
 			"An entry of the eviction waiting list is passed over by ShouldKeepHash without the membership lookup only while identifier == OldRoot. " +
+			"Every call of AccountsDB into the storage pruning manager runs with mutOp write-locked. " +
 			"Not decided (value-level): the bookkeeping of old/new hash sets across histories, eviction-waiting-list cache/DB spill.",
 		Run: runC09,
 	})
